@@ -10,88 +10,88 @@ Theorem C02_t_changeBasis_full : forall a b : nat -> R,
   (t_changeBasis_1 a b = flat_t 1%nat (spec_t_changeBasis 1%nat (full_t 1%nat a) (full_r 1%nat b))) /\
   (t_changeBasis_2 a b = flat_t 2%nat (spec_t_changeBasis 2%nat (full_t 2%nat a) (full_r 2%nat b))) /\
   (t_changeBasis_3 a b = flat_t 3%nat (spec_t_changeBasis 3%nat (full_t 3%nat a) (full_r 3%nat b))).
-Proof. intros; exact (conj (t_changeBasis_1_ok a b) (conj (t_changeBasis_2_ok a b) (t_changeBasis_3_ok a b))). Qed.
+Proof. intros a b; exact (conj (t_changeBasis_1_ok a b) (conj (t_changeBasis_2_ok a b) (t_changeBasis_3_ok a b))). Qed.
 Print Assumptions C02_t_changeBasis_full.
 
 Theorem C02_t_otimes_full : forall a b : nat -> R,
   (t_otimes_1 a b = flat_B 1%nat (spec_t_otimes 1%nat (full_t 1%nat a) (full_t 1%nat b))) /\
   (t_otimes_2 a b = flat_B 2%nat (spec_t_otimes 2%nat (full_t 2%nat a) (full_t 2%nat b))) /\
   (t_otimes_3 a b = flat_B 3%nat (spec_t_otimes 3%nat (full_t 3%nat a) (full_t 3%nat b))).
-Proof. intros; exact (conj (t_otimes_1_ok a b) (conj (t_otimes_2_ok a b) (t_otimes_3_ok a b))). Qed.
+Proof. intros a b; exact (conj (t_otimes_1_ok a b) (conj (t_otimes_2_ok a b) (t_otimes_3_ok a b))). Qed.
 Print Assumptions C02_t_otimes_full.
 
 Theorem C02_A_mul3_full : forall a b c : nat -> R,
   (A_mul3_1 a b c = flat_A 1%nat (spec_A_mul3 1%nat (full_A 1%nat a) (full_A 1%nat b) (full_A 1%nat c))) /\
   (A_mul3_2 a b c = flat_A 2%nat (spec_A_mul3 2%nat (full_A 2%nat a) (full_A 2%nat b) (full_A 2%nat c))) /\
   (A_mul3_3 a b c = flat_A 3%nat (spec_A_mul3 3%nat (full_A 3%nat a) (full_A 3%nat b) (full_A 3%nat c))).
-Proof. intros; exact (conj (A_mul3_1_ok a b c) (conj (A_mul3_2_ok a b c) (A_mul3_3_ok a b c))). Qed.
+Proof. intros a b c; exact (conj (A_mul3_1_ok a b c) (conj (A_mul3_2_ok a b c) (A_mul3_3_ok a b c))). Qed.
 Print Assumptions C02_A_mul3_full.
 
 Theorem C02_A_change_basis_full : forall a b : nat -> R,
   (A_change_basis_3 a b = flat_A 3%nat (spec_A_change_basis 3%nat (full_A 3%nat a) (full_r 3%nat b))).
-Proof. intros; exact (A_change_basis_3_ok a b). Qed.
+Proof. intros a b; exact (A_change_basis_3_ok a b). Qed.
 Print Assumptions C02_A_change_basis_full.
 
 Theorem C02_A_stpd_full : forall a : nat -> R,
   (A_stpd_1 a = flat_A 1%nat (spec_A_stpd 1%nat (full_s 1%nat a))) /\
   (A_stpd_2 a = flat_A 2%nat (spec_A_stpd 2%nat (full_s 2%nat a))) /\
   (A_stpd_3 a = flat_A 3%nat (spec_A_stpd 3%nat (full_s 3%nat a))).
-Proof. intros; exact (conj (A_stpd_1_ok a) (conj (A_stpd_2_ok a) (A_stpd_3_ok a))). Qed.
+Proof. intros a; exact (conj (A_stpd_1_ok a) (conj (A_stpd_2_ok a) (A_stpd_3_ok a))). Qed.
 Print Assumptions C02_A_stpd_full.
 
 Theorem C02_A_d2det_full : forall a : nat -> R,
   (A_d2det_1 a = flat_A 1%nat (spec_A_d2det 1%nat (full_s 1%nat a))) /\
   (A_d2det_2 a = flat_A 2%nat (spec_A_d2det 2%nat (full_s 2%nat a))) /\
   (A_d2det_3 a = flat_A 3%nat (spec_A_d2det 3%nat (full_s 3%nat a))).
-Proof. intros; exact (conj (A_d2det_1_ok a) (conj (A_d2det_2_ok a) (A_d2det_3_ok a))). Qed.
+Proof. intros a; exact (conj (A_d2det_1_ok a) (conj (A_d2det_2_ok a) (A_d2det_3_ok a))). Qed.
 Print Assumptions C02_A_d2det_full.
 
 Theorem C02_B_expr_full : forall a b c : nat -> R,
   (B_expr_1 a b c = flat_B 1%nat (spec_B_expr 1%nat (full_B 1%nat a) (full_B 1%nat b) (full_x 1%nat c))) /\
   (B_expr_2 a b c = flat_B 2%nat (spec_B_expr 2%nat (full_B 2%nat a) (full_B 2%nat b) (full_x 2%nat c))) /\
   (B_expr_3 a b c = flat_B 3%nat (spec_B_expr 3%nat (full_B 3%nat a) (full_B 3%nat b) (full_x 3%nat c))).
-Proof. intros; exact (conj (B_expr_1_ok a b c) (conj (B_expr_2_ok a b c) (B_expr_3_ok a b c))). Qed.
+Proof. intros a b c; exact (conj (B_expr_1_ok a b c) (conj (B_expr_2_ok a b c) (B_expr_3_ok a b c))). Qed.
 Print Assumptions C02_B_expr_full.
 
 Theorem C02_B_change_basis_full : forall a b : nat -> R,
   (B_change_basis_3 a b = flat_B 3%nat (spec_B_change_basis 3%nat (full_B 3%nat a) (full_r 3%nat b))).
-Proof. intros; exact (B_change_basis_3_ok a b). Qed.
+Proof. intros a b; exact (B_change_basis_3_ok a b). Qed.
 Print Assumptions C02_B_change_basis_full.
 
 Theorem C02_B_tpld2_full : forall a b : nat -> R,
   (B_tpld2_1 a b = flat_B 1%nat (spec_B_tpld2 1%nat (full_t 1%nat a) (full_B 1%nat b))) /\
   (B_tpld2_2 a b = flat_B 2%nat (spec_B_tpld2 2%nat (full_t 2%nat a) (full_B 2%nat b))) /\
   (B_tpld2_3 a b = flat_B 3%nat (spec_B_tpld2 3%nat (full_t 3%nat a) (full_B 3%nat b))).
-Proof. intros; exact (conj (B_tpld2_1_ok a b) (conj (B_tpld2_2_ok a b) (B_tpld2_3_ok a b))). Qed.
+Proof. intros a b; exact (conj (B_tpld2_1_ok a b) (conj (B_tpld2_2_ok a b) (B_tpld2_3_ok a b))). Qed.
 Print Assumptions C02_B_tpld2_full.
 
 Theorem C02_B_tprd2_full : forall a b : nat -> R,
   (B_tprd2_1 a b = flat_B 1%nat (spec_B_tprd2 1%nat (full_t 1%nat a) (full_B 1%nat b))) /\
   (B_tprd2_2 a b = flat_B 2%nat (spec_B_tprd2 2%nat (full_t 2%nat a) (full_B 2%nat b))) /\
   (B_tprd2_3 a b = flat_B 3%nat (spec_B_tprd2 3%nat (full_t 3%nat a) (full_B 3%nat b))).
-Proof. intros; exact (conj (B_tprd2_1_ok a b) (conj (B_tprd2_2_ok a b) (B_tprd2_3_ok a b))). Qed.
+Proof. intros a b; exact (conj (B_tprd2_1_ok a b) (conj (B_tprd2_2_ok a b) (B_tprd2_3_ok a b))). Qed.
 Print Assumptions C02_B_tprd2_full.
 
 Theorem C02_B_d2det_full : forall a : nat -> R,
   (B_d2det_1 a = flat_B 1%nat (spec_B_d2det 1%nat (full_t 1%nat a))) /\
   (B_d2det_2 a = flat_B 2%nat (spec_B_d2det 2%nat (full_t 2%nat a))) /\
   (B_d2det_3 a = flat_B 3%nat (spec_B_d2det 3%nat (full_t 3%nat a))).
-Proof. intros; exact (conj (B_d2det_1_ok a) (conj (B_d2det_2_ok a) (B_d2det_3_ok a))). Qed.
+Proof. intros a; exact (conj (B_d2det_1_ok a) (conj (B_d2det_2_ok a) (B_d2det_3_ok a))). Qed.
 Print Assumptions C02_B_d2det_full.
 
 Theorem C02_DC_mul_full : forall a b : nat -> R,
   (DC_mul_3 a b = flat_B 3%nat (spec_DC_mul 3%nat (full_D 3%nat a) (full_C 3%nat b))).
-Proof. intros; exact (DC_mul_3_ok a b). Qed.
+Proof. intros a b; exact (DC_mul_3_ok a b). Qed.
 Print Assumptions C02_DC_mul_full.
 
 Theorem C02_BD_mul_full : forall a b : nat -> R,
   (BD_mul_3 a b = flat_D 3%nat (spec_BD_mul 3%nat (full_B 3%nat a) (full_D 3%nat b))).
-Proof. intros; exact (BD_mul_3_ok a b). Qed.
+Proof. intros a b; exact (BD_mul_3_ok a b). Qed.
 Print Assumptions C02_BD_mul_full.
 
 Theorem C02_C_change_basis_full : forall a b : nat -> R,
   (C_change_basis_1 a b = flat_C 1%nat (spec_C_change_basis 1%nat (full_C 1%nat a) (full_r 1%nat b))) /\
   (C_change_basis_2 a b = flat_C 2%nat (spec_C_change_basis 2%nat (full_C 2%nat a) (full_r 2%nat b))) /\
   (C_change_basis_3 a b = flat_C 3%nat (spec_C_change_basis 3%nat (full_C 3%nat a) (full_r 3%nat b))).
-Proof. intros; exact (conj (C_change_basis_1_ok a b) (conj (C_change_basis_2_ok a b) (C_change_basis_3_ok a b))). Qed.
+Proof. intros a b; exact (conj (C_change_basis_1_ok a b) (conj (C_change_basis_2_ok a b) (C_change_basis_3_ok a b))). Qed.
 Print Assumptions C02_C_change_basis_full.
